@@ -657,6 +657,68 @@ theorem C06_search_end_to_end (K O : Nat) (segs : List (Nat × (Nat → Nat))) (
   exact C06_merge_offset natGt hgt K O fruits _ (hall.imp fun _ _ h => h.1)
     (addrNodup_flatten_of_sub (hall.imp fun _ _ h => h.2) hnd) hnd
 
+/-- the same with DELETED documents (the `alive_bitset` branch of `collect_segment_top_k`: the
+callback returns the old threshold for a deleted document): segments are `(base, alive, total)`,
+the result is the page of all LIVE matching documents. -/
+theorem C06_search_end_to_end_alive (K O : Nat) (segs : List (Nat × (Nat → Bool) × (Nat → Nat)))
+    (fruits : List (List (Entry Nat)))
+    (hfruit : TopN.Forall₂ (fun f (seg : Nat × (Nat → Bool) × (Nat → Nat)) =>
+      f ~ (Wand.exhRange (heapCbA seg.1 seg.2.1) seg.2.2 0 BlockWand.T (Heap.new (O + K), 0)).1.heap) fruits segs)
+    (hnd : AddrNodup (segs.map fun seg => segEntries seg.1 (maskTot seg.2.1 seg.2.2) 0 BlockWand.T).flatten) :
+    mergeTopK natGt K O fruits
+      = topK (le natGt) K O (segs.map fun seg => segEntries seg.1 (maskTot seg.2.1 seg.2.2) 0 BlockWand.T).flatten := by
+  have h := C06_search_end_to_end K O (segs.map fun seg => (seg.1, maskTot seg.2.1 seg.2.2)) fruits
+    (by
+      apply TopN.Forall₂.map_right
+      refine hfruit.imp ?_
+      intro f seg hperm
+      have h0 : thrNat (Heap.new (O + K)) = 0 := rfl
+      have := exhRange_heapCbA seg.1 seg.2.1 seg.2.2 BlockWand.T 0 (Heap.new (O + K))
+      rw [h0] at this
+      rw [this] at hperm
+      dsimp only
+      exact hperm)
+    (by simpa [map_map, Function.comp_def] using hnd)
+  simpa [map_map, Function.comp_def] using h
+
+/-- the drivers, totally: `block_wand` with the deletes-aware `TopNHeap` callback on fresh scorers
+ends — without any side condition on the run — with the best N of the segment's live matching
+documents in the heap (given `UB_max` / `UB_block`) -/
+theorem C06_wand_union_collects_topk_total (base N fuel : Nat) (alive : Nat → Bool) (scorers : List (BlockWand.TS Nat))
+    (hwf : ∀ x, x ∈ scorers → BlockWand.WFT x) (hfresh : ∀ x, x ∈ scorers → x.skip = 0)
+    (hfuel : BlockWand.lenSum scorers < fuel) :
+    ∃ out, BlockWand.blockWand (heapCbA base alive) fuel (Heap.new N, 0) scorers = .ok out ∧
+      out.1.heap = topK (le natGt) N 0
+        (segEntries base (maskTot alive (Wand.unionTotal (scorers.map (·.rest)))) 0 BlockWand.T) := by
+  have ht := C06_wand_union_total (heapCbA base alive) _ (heapCbA_mono base alive) fuel (Heap.new N) 0
+    ⟨heapOK_new N, rfl⟩ scorers hwf hfresh hfuel
+  refine ⟨_, ht, ?_⟩
+  have h0 : thrNat (Heap.new N) = 0 := rfl
+  have h1 := exhRange_heapCbA base alive (Wand.unionTotal (scorers.map (·.rest))) BlockWand.T 0 (Heap.new N)
+  have h2 := exhRange_heapCb base (maskTot alive (Wand.unionTotal (scorers.map (·.rest)))) BlockWand.T 0
+    (Heap.new N) (heapWf_new N)
+  rw [h0] at h1 h2
+  rw [h1, h2]
+  exact C06_heap_topk natGt natGt_strictWeak N _ (segEntries_asc _ _ _ _)
+
+theorem C06_wand_intersection_collects_topk_total (base N fuel : Nat) (alive : Nat → Bool)
+    (scorers : List (BlockWand.TS Nat)) (hwf : ∀ x, x ∈ scorers → BlockWand.WFI x)
+    (hfresh : ∀ x, x ∈ scorers → x.skip = 0) (hlen : 2 ≤ scorers.length)
+    (hfuel : (scorers.map (·.blocks.length)).sum + 2 ≤ fuel) :
+    ∃ out, BlockWand.blockWandInter (heapCbA base alive) fuel (Heap.new N, 0) scorers = .ok out ∧
+      out.1.heap = topK (le natGt) N 0
+        (segEntries base (maskTot alive (Wand.interTotal (scorers.map (·.rest)))) 0 BlockWand.T) := by
+  have ht := C06_wand_intersection_total (heapCbA base alive) _ (heapCbA_mono base alive) fuel (Heap.new N) 0
+    ⟨heapOK_new N, rfl⟩ scorers hwf hfresh hlen hfuel
+  refine ⟨_, ht, ?_⟩
+  have h0 : thrNat (Heap.new N) = 0 := rfl
+  have h1 := exhRange_heapCbA base alive (Wand.interTotal (scorers.map (·.rest))) BlockWand.T 0 (Heap.new N)
+  have h2 := exhRange_heapCb base (maskTot alive (Wand.interTotal (scorers.map (·.rest)))) BlockWand.T 0
+    (Heap.new N) (heapWf_new N)
+  rw [h0] at h1 h2
+  rw [h1, h2]
+  exact C06_heap_topk natGt natGt_strictWeak N _ (segEntries_asc _ _ _ _)
+
 /-! ## the score bounds (exact arithmetic) and the refuted hypothesis `UB_max` -/
 
 open TantivyModel.Bm25Q in
@@ -973,6 +1035,12 @@ example : BlockWand.blockWand (fun (s : List Nat) d sc => (s ++ [d], sc)) 5 ([],
       · exact ⟨exB_wfi.wf, fun b hb => by simp [exB] at hb⟩)
     (by intro x hx; simp only [mem_cons, not_mem_nil, or_false] at hx; rcases hx with rfl | rfl <;> rfl)
     (by decide)
+
+/-- with document 2 deleted the union driver's heap keeps document 1 (score 3): the run itself is
+evaluated, the specification side is what `C06_wand_union_collects_topk_total` says about it -/
+example : (match BlockWand.blockWand (heapCbA 100 (fun d => d != 2)) 5 (Heap.new 1, 0) [exA, exB] with
+    | .ok o => decide (o.1.heap = [⟨3, 101⟩])
+    | _ => false) = true := by decide
 
 def exTerms : List Wand.TermList := [⟨[(2, 3), (9, 1)], 3⟩, ⟨[(5, 4)], 4⟩, ⟨[(5, 2), (6, 2)], 2⟩]
 example : Wand.findPivot 5 exTerms 0 = some 5 ∧ Wand.totalScore exTerms 2 = 3 ∧ Wand.totalScore exTerms 5 = 6 := by
